@@ -426,6 +426,39 @@ def no_truncation_before_rounding(ck, rule):
         n_ok += 1
     if n_ok == 0:
         ck.unsure(rule, fm, "fixed-point-source branch re-scales codes by a power of two", arm, "no re-scaling found")
+    value_type_domain(ck, rule)
+
+
+def value_type_domain(ck, rule):
+    """The value type (vdtype) is a Python type (int, float, complex, type(x)) or a NumPy dtype *instance* (x.dtype): both compare equal to the
+    Python types the library tests them against (`vdtype == int`).  A NumPy scalar class (x.dtype.type, np.int64) or a dtype's name / kind does
+    not (np.int64 == int is False), so every `== int` test downstream silently takes the other branch."""
+    prog = ck.prog
+    n = 0
+    for f in prog.all_funcs():
+        if f.module != "objects":
+            continue
+        for node in ast.walk(f.node):
+            if not isinstance(node, ast.Assign):
+                continue
+            if not any((isinstance(t, ast.Name) and t.id.endswith("vdtype")) or (isinstance(t, ast.Attribute) and t.attr == "vdtype") for t in node.targets):
+                continue
+            n += 1
+            v = node.value
+            wrong = None
+            for x in ast.walk(v):
+                if isinstance(x, ast.Attribute) and x.attr in ("type", "name", "kind", "char", "str") and isinstance(x.value, ast.Attribute) and x.value.attr == "dtype":
+                    wrong = x
+                elif isinstance(x, ast.Attribute) and isinstance(x.value, ast.Name) and x.value.id in ("np", "numpy") and x.attr in (
+                        "int8", "int16", "int32", "int64", "uint8", "uint16", "uint32", "uint64", "float16", "float32", "int_", "intc", "longlong", "integer", "floating") \
+                        and x is v:
+                    wrong = x
+            if wrong is not None:
+                ck.bad(rule, f, "value types are Python types or dtype instances (what the `== int` / `== float` tests of the library recognise)", "%s = %s" % (src(node.targets[0]), src(v)[:50]), node,
+                       "a NumPy scalar class (or a dtype's name / kind) never compares equal to int: the integer-value-type guards (no truncation before rounding, float promotion under scale/bias) stop firing")
+    if n == 0:
+        raise AnalysisError("no value-type assignment found in objects.py")
+    ck.ok(rule, "objects.py", "%d value-type assignments: none stores a NumPy scalar class or a dtype attribute" % n, nontrivial=False)
 
 
 def no_alias_writes(ck, rule):
@@ -533,3 +566,57 @@ def numpy_dispatch_transparent(ck, rule):
     if okall:
         ck.ok(rule, g, "_set_array_output_type passes its argument itself to out.set_val / the constructor on every path")
     ck.saw(g)
+
+
+def forwarded_defaults(ck, rule):
+    """Layer agreement: a function that forwards one of its own parameters unchanged to the constructor, to set_val or to resize under the same
+    keyword gives that parameter the same default as the callee (None stays None, raw=False stays False): a wrapper whose default differs
+    silently overrides what the callee would have derived (signed=True forwarded to Fxp(like=unsigned) re-signs the template's format)."""
+    prog = ck.prog
+    targets = {}
+    for qn in ("objects.Fxp.__init__", "objects.Fxp.set_val", "objects.Fxp.resize"):
+        g = prog.func(qn)
+        a = g.node.args
+        names = [x.arg for x in a.args]
+        dfl = {}
+        for nm, d in zip(names[len(names) - len(a.defaults):], a.defaults):
+            dfl[nm] = d
+        for x, d in zip(a.kwonlyargs, a.kw_defaults):
+            if d is not None:
+                dfl[x.arg] = d
+        targets[qn] = dfl
+    n = 0
+    for f in prog.all_funcs():
+        a = f.node.args
+        names = [x.arg for x in a.args]
+        mine = {}
+        for nm, d in zip(names[len(names) - len(a.defaults):], a.defaults):
+            mine[nm] = d
+        for x, d in zip(a.kwonlyargs, a.kw_defaults):
+            if d is not None:
+                mine[x.arg] = d
+        if not mine:
+            continue
+        rebound = {t.id for nd in ast.walk(f.node) if isinstance(nd, (ast.Assign, ast.AugAssign, ast.AnnAssign)) for t in ast.walk(nd.targets[0] if isinstance(nd, ast.Assign) else nd.target)
+                   if isinstance(t, ast.Name) and isinstance(t.ctx, ast.Store)}
+        for c in calls_in(f.node):
+            callee = None
+            if prog.is_fxp_ctor(f, c):
+                callee = "objects.Fxp.__init__"
+            elif isinstance(c.func, ast.Attribute) and c.func.attr in ("set_val", "resize"):
+                callee = "objects.Fxp." + c.func.attr
+            if callee is None or f.qualname == callee:
+                continue
+            for k in c.keywords:
+                if k.arg is None or not isinstance(k.value, ast.Name) or k.value.id != k.arg:
+                    continue
+                p = k.arg
+                if p not in mine or p in rebound or p not in targets[callee]:
+                    continue
+                n += 1
+                d1, d2 = mine[p], targets[callee][p]
+                same = ast.dump(d1) == ast.dump(d2)
+                ck.check(same, rule, f, "a parameter forwarded unchanged to %s has the callee's default" % callee.split(".")[-1],
+                         "%s(%s=%s) forwards to %s(%s=%s)" % (f.name, p, src(d1), callee.split(".")[-1], p, src(d2)), c,
+                         "the wrapper's default overrides what the callee would derive (from like=, a template, the dtype string or the value)", nontrivial=False)
+    ck.saw(calls=n)
